@@ -73,6 +73,10 @@ type Scenario struct {
 	Enum       EnumSched `json:"enum"`
 	Faults     []Fault   `json:"faults"`
 	TickBudget int64     `json:"tick_budget,omitempty"`
+	// NsPerTick: speed of the simulated wall clock (0/1: one nanosecond per tick; large: a slow or stalled machine)
+	NsPerTick int64 `json:"ns_per_tick,omitempty"`
+	// Env: extra environment variables of the child (the environment is part of what a run may not depend on)
+	Env []string `json:"env,omitempty"`
 	Log        string    `json:"log,omitempty"`
 	Note       string    `json:"note,omitempty"`
 	// Real: judge the shipped (tag-off, uninstrumented) binary on a real directory holding the disk image
@@ -128,6 +132,7 @@ func (s *Scenario) Clone() *Scenario {
 	n.Argv = append([]string{}, s.Argv...)
 	n.Disk = s.Disk.Clone()
 	n.Faults = append([]Fault{}, s.Faults...)
+	n.Env = append([]string{}, s.Env...)
 	n.Enum.Tape = map[string][]int{}
 	for k, v := range s.Enum.Tape {
 		n.Enum.Tape[k] = append([]int{}, v...)
@@ -328,7 +333,7 @@ func RunSimEnv(binary string, sc *Scenario, workDir string, gomaxprocs string) *
 	defer cancel()
 	cmd := limitedCommand(ctx, binary, sc.Argv)
 	cmd.Dir = cwd
-	cmd.Env = []string{"VERIF_SIM=" + scPath, "GOMAXPROCS=" + gomaxprocs, "GOTRACEBACK=single", "PATH=/usr/bin:/bin"}
+	cmd.Env = append([]string{"VERIF_SIM=" + scPath, "GOMAXPROCS=" + gomaxprocs, "GOTRACEBACK=single", "PATH=/usr/bin:/bin"}, sc.Env...)
 	var so, se capWriter
 	cmd.Stdout = &so
 	cmd.Stderr = &se
